@@ -65,6 +65,13 @@ fn relevant_bytes(pats: &Pats, ci: bool) -> Vec<bool> {
 }
 
 fn walk<A: Automaton>(a: &A, c: &Ctx) -> Dump {
+    // a failure walk that never ends must end up as data (a panic recorded for this automaton)
+    let d = walk_imp(a, c);
+    aho_corasick::verif::reset_counters(u64::MAX);
+    d
+}
+
+fn walk_imp<A: Automaton>(a: &A, c: &Ctx) -> Dump {
     let mut rel = relevant_bytes(&c.pats, c.ci);
     'again: loop {
         let mut bytes: Vec<u8> = (0..=255u8).filter(|&b| rel[b as usize]).collect();
@@ -93,6 +100,8 @@ fn walk<A: Automaton>(a: &A, c: &Ctx) -> Dump {
         while i < order.len() {
             let sid = order[i];
             i += 1;
+            // (per state: 2 x 256 transitions, each walking at most the longest pattern's length)
+            aho_corasick::verif::reset_counters(1 << 20);
             let ms = a.is_match(sid);
             let mut m = vec![];
             if ms {
@@ -175,6 +184,7 @@ fn failed(c: &Ctx, err: String) -> Dump {
 }
 
 pub fn dump_ctx(c: &Ctx) -> Dump {
+    set_case(&serde_json::to_string(c).unwrap_or_default());
     let r = guarded(|| match build_low(c) {
         Err(e) => failed(c, format!("build: {}", e)),
         Ok(aut) => with_aut!(&aut, a => walk(a, c)),
